@@ -87,8 +87,21 @@ def run_verus(path, rlimit=None, threads=None, timeout=1800, extra=()):
         msg = d.get("message", "")
         if msg.startswith("aborting due to"):
             continue
-        spans = d.get("spans", [])
-        prim = [s for s in spans if s.get("is_primary")]
+        base = os.path.basename(path)
+
+        def _own(sp):
+            """the span inside OUR generated file: a span that lies in a macro definition elsewhere (core's panic!, vstd ...) is followed
+            through its expansion chain to the invocation site"""
+            seen = 0
+            while sp is not None and seen < 8:
+                if os.path.basename(sp.get("file_name", "")) == base:
+                    return sp
+                sp = (sp.get("expansion") or {}).get("span")
+                seen += 1
+            return None
+        spans = [x for x in (_own(sp) for sp in d.get("spans", [])) if x is not None]
+        raw_spans = d.get("spans", [])
+        prim = [x for x in (_own(sp) for sp in raw_spans if sp.get("is_primary")) if x is not None]
         line_no = prim[0]["line_start"] if prim else (spans[0]["line_start"] if spans else None)
         text = ""
         if prim and prim[0].get("text"):
